@@ -348,7 +348,7 @@ class Generator(TreeListener):
             self.delay_counter += 1
 
             for f in self.for_loops:
-                syms = set(ca.symvar(expr))
+                syms = set(ca.symvar(expr)) | set(ca.symvar(ca.MX(duration)))
                 if syms.intersection(f.indexed_symbols):
                     f.register_indexed_symbol(
                         src, lambda i: i, True, tree.operands[0], f.index_variable
@@ -543,7 +543,41 @@ class Generator(TreeListener):
 
                     model_input = next(x for x in self.model.inputs if x.symbol.name() == k.name())
                     model_input.symbol = orig_symbol
-                    self.model.delay_arguments[i] = DelayArgument(res, delay_symbol.duration)
+
+                    # A duration that depends on the loop index (e.g. an
+                    # indexed parameter) is mapped over the loop as well, so
+                    # that no loop-local symbol is left dangling in it.
+                    duration = delay_symbol.duration
+                    duration_symbols = ca.symvar(ca.MX(duration))
+                    duration_names = {e.name() for e in duration_symbols}
+                    loop_args = [
+                        (arg, value)
+                        for arg, value in zip(all_args, [f.values] + indexed_symbols_full)
+                        if arg.name() in duration_names
+                    ]
+                    if loop_args:
+                        loop_arg_names = {arg.name() for arg, _ in loop_args}
+                        duration_free_vars = [
+                            e for e in duration_symbols if e.name() not in loop_arg_names
+                        ]
+                        f_duration = ca.Function(
+                            "delay_duration",
+                            duration_free_vars + [arg for arg, _ in loop_args],
+                            [duration],
+                        )
+                        f_duration_map = f_duration.map(
+                            "map",
+                            self.map_mode,
+                            len(f.values),
+                            list(range(len(duration_free_vars))),
+                            [],
+                        )
+                        [duration] = f_duration_map.call(
+                            duration_free_vars + [value for _, value in loop_args]
+                        )
+                        duration = duration.T
+
+                    self.model.delay_arguments[i] = DelayArgument(res, duration)
 
                 indexed_symbol = orig_symbol[indices]
                 if s.transpose:
